@@ -107,3 +107,21 @@ def _v26(repo, mod):
     fn = repo.methods(repo.cls(MOD, "_AbstractOrderedSet"))["issuperset"]
     r = [s for s in fn.body if isinstance(s, ast.Return)][-1]
     return replace_node(mod, r.value, "all(item in self._items for item in tuple(other))")
+
+
+@variant("C34", "issubset-by-the-operands-own-contains", MOD, "C34.edges", "substring semantics for str / bytes operands (the repaired defect)")
+def _v40(repo, mod):
+    from sa.selftest.harness import text_edit
+    return text_edit(mod, "        if not isinstance(other, AbstractSet):\n            # Only the elements", "        if not isinstance(other, (AbstractSet, str, bytes, list, tuple, dict)):\n            # Only the elements")
+
+
+@variant("C34", "falsy-iterable-treated-as-empty", MOD, "C34.edges", "`iterable or ()` in the constructor (the repaired defect)")
+def _v41(repo, mod):
+    from sa.selftest.harness import text_edit
+    return text_edit(mod, "dict.fromkeys(() if iterable is None else iterable)", "dict.fromkeys(iterable or ())")
+
+
+@variant("C34", "twin-none-check-first", MOD, None, "constructor written as an if statement")
+def _v42(repo, mod):
+    from sa.selftest.harness import text_edit
+    return text_edit(mod, "        self._items: dict[T, None] = dict.fromkeys(() if iterable is None else iterable)", "        if iterable is None:\n            iterable = ()\n        self._items: dict[T, None] = dict.fromkeys(iterable)")
